@@ -18,6 +18,16 @@ def generate(rng, tier):
     n = 600 if tier == 'quick' else 6000
     for _ in range(n):
         yield gen_coro.gen_timing(rng, tier)
+    # "whatever other coroutines are waiting for", kills and restarts included; bodies that kill
+    # themselves with others queued behind them; bodies that leave with an exception
+    for _ in range(n // 3):
+        yield gen_coro.gen_same_wait(rng, tier)
+    for _ in range(n // 3):
+        yield gen_coro.gen_raise(rng, tier)
+    for _ in range(n // 4):
+        yield gen_coro.gen_self_kill(rng, tier)
+    for _ in range(n // 4):
+        yield gen_coro.gen_lifecycle(rng, tier)
 
 
 def project(obs):
